@@ -76,6 +76,10 @@ def harnesses(tier):
     hs.append({"id": "twice/PP-then-P", "params": {"tp": ["P", "P", "P"], "names": ["a", "b", "a"], "cigar": True, "cigars": [1, 2, 4], "twice": True},
                "timeout": 300})
     hs.append({"id": "cigar/secondary", "params": {"tp": ["S", "P"], "names": ["a", "a"], "cigar": True, "cigars": [2, 4]}, "timeout": 200})
+    for i, h in enumerate(hs):
+        if i % 2 == 1 and h["params"]["tp"]:
+            h["params"]["nonl"] = True  # the file's last line is not newline-terminated
+            h["id"] += "/no-final-newline"
     return hs
 
 
@@ -99,10 +103,10 @@ def parsed_cigar(cg, tp, layout):
     return "" if (layout == 1 and TP[tp]) else cg
 
 
-def is_primary_of(tp, cg="5=", layout=0):
+def is_primary_of(tp, cg="5=", layout=0, newline=True):
     """classification by the real parser"""
     GA = M["GA"]
-    line = "x\t10\t0\t5\t+\t>s1\t100\t0\t50\t5\t5\t60" + opt_fields(tp, cg, layout) + "\n"
+    line = "x\t10\t0\t5\t+\t>s1\t100\t0\t50\t5\t5\t60" + opt_fields(tp, cg, layout) + ("\n" if newline else "")
     e = stubs.env()
     e.files["probe.gaf"] = stubs.MFile("text", [line], None)
     g = GA.GAF("probe.gaf")
@@ -170,7 +174,8 @@ def build(params):
         CIGAR_OK[0] = True
         lay = params.get("layout", 0)
         del PARSED_CG[:]
-        prim = [is_primary_of(t, cig[i], lay) for i, t in enumerate(tps)]
+        # the last record of a file need not end in a newline
+        prim = [is_primary_of(t, cig[i], lay, newline=not (params.get("nonl") and i == n - 1)) for i, t in enumerate(tps)]
         cig_real = list(PARSED_CG)  # what the real parser made of the cg column: this is what stat counts
         cig_seen = [parsed_cigar(cig[i], tps[i], lay) for i in range(n)]
         # the statement's definition: primary iff tp:A is P (or absent, i.e. not marked secondary)
@@ -247,7 +252,8 @@ def replay(params, model, wd):
         lines.append("%s\t%d\t%d\t%d\t+\t>s1\t100\t0\t50\t%d\t%d\t%d%s" % (names[i], QL[i], qs[i], qe[i], rm[i], BL[i], mq[i], opt_fields(tps[i], cig[i], lay)))
     cig = [parsed_cigar(cig[i], tps[i], lay) for i in range(n)]
     gaf = os.path.join(wd, "x.gaf")
-    open(gaf, "w").write("".join(l + "\n" for l in lines))
+    text = "".join(l + "\n" for l in lines)
+    open(gaf, "w").write(text[:-1] if params.get("nonl") else text)
     out = os.path.join(wd, "o.txt")
     err = None
     try:
